@@ -38,6 +38,15 @@ type recTrigger struct {
 	recl int
 }
 
+type faultyTrigger struct{ fires, panics *int64 }
+
+func (t *faultyTrigger) Fire(keyPath string, records []trigger.Record) {
+	if n := atomic.AddInt64(t.fires, 1); n%3 != 0 {
+		atomic.AddInt64(t.panics, 1)
+		panic(fmt.Sprintf("faulty trigger plugin: cannot handle %d records of %s", len(records), keyPath))
+	}
+}
+
 func (t *recTrigger) Fire(keyPath string, records []trigger.Record) {
 	t.mu.Lock()
 	defer t.mu.Unlock()
@@ -90,6 +99,12 @@ func c32run(c *runner.Ctx) runner.Result {
 	var got []delivery
 	var matchers []*trigger.Matcher
 	var used []string
+	// every second case: a faulty plugin, configured first and matching every bucket, panics in two of
+	// three Fire calls; what the other triggers are owed does not change (its own deliveries are not judged)
+	var faultyFires, faultyPanics int64
+	if c.Case%2 == 1 {
+		matchers = append(matchers, trigger.NewMatcher(&faultyTrigger{fires: &faultyFires, panics: &faultyPanics}, "*/*/*"))
+	}
 	for i := 0; i < np; i++ {
 		p := patterns[perm[i]]
 		used = append(used, p)
@@ -198,6 +213,8 @@ func c32run(c *runner.Ctx) runner.Result {
 	res.Count("deliveries", int64(len(got)))
 	res.Count("records_written", int64(len(expected)))
 	res.Count("dispatch_events", atomic.LoadInt64(&dispatches))
+	res.Count("faulty_trigger_fires", atomic.LoadInt64(&faultyFires))
+	res.Count("faulty_trigger_panics", atomic.LoadInt64(&faultyPanics))
 	known := 0
 	knownEx := ""
 	for _, e := range expected {
